@@ -76,6 +76,15 @@ fn centroid_grid(dim: usize, side: usize) -> Vec<Vec<f64>> {
 /// translate every coordinate by the job's offset (0 when absent); offsets are integers so the
 /// lattice coordinates stay exact
 fn shifted(job: &Job, mut v: Vec<Vec<f64>>) -> Vec<Vec<f64>> {
+    // an optional power-of-two scale (exact) is applied before the offset
+    let scale = job.params.get("scale").and_then(|x| x.as_f64()).unwrap_or(1.0);
+    if scale != 1.0 {
+        for r in v.iter_mut() {
+            for x in r.iter_mut() {
+                *x *= scale;
+            }
+        }
+    }
     let off = job.params.get("off").and_then(|x| x.as_f64()).unwrap_or(0.0);
     if off != 0.0 {
         for r in v.iter_mut() {
@@ -243,6 +252,11 @@ fn assignment_structured_case(job: &Job) {
     mc::describe(|| json!({"op": "bbd_clustering", "structured_variant": variant, "n": n, "dim": dim, "centroids": cents, "counts": r.counts, "distortion": r.distortion}));
 }
 
+thread_local! {
+    /// magnitude of the data of the current execution (1 unless the job carries a scale)
+    static DATA_SCALE: std::cell::Cell<f64> = std::cell::Cell::new(1.0);
+}
+
 fn check_model(site: &str, pts: &[Vec<f64>], k: usize, model: &KMeans<f64>, ctx: &str, queries: &[Vec<f64>]) -> Option<(Vec<Vec<f64>>, Vec<usize>)> {
     let n = pts.len();
     let dim = pts[0].len();
@@ -279,7 +293,7 @@ fn check_model(site: &str, pts: &[Vec<f64>], k: usize, model: &KMeans<f64>, ctx:
         }
         for c in 0..dim {
             let m = members.iter().map(|i| pts[*i][c]).sum::<f64>() / members.len() as f64;
-            if (cents[j][c] - m).abs() > 1e-12 * (1.0 + m.abs()) {
+            if (cents[j][c] - m).abs() > 1e-12 * (DATA_SCALE.with(|s| s.get()) + m.abs()) {
                 mc::violation(format!("{}:centroid-not-mean", site), format!("{}: centroid {} = {:?} but the mean of its rows {:?} is {} in coordinate {}", ctx, j, cents[j], members, m, c));
             }
         }
@@ -299,7 +313,7 @@ fn check_model(site: &str, pts: &[Vec<f64>], k: usize, model: &KMeans<f64>, ctx:
                     let best = ds.iter().cloned().fold(f64::INFINITY, f64::min);
                     let l = lab[i];
                     let li = l as usize;
-                    if l < 0.0 || l.fract() != 0.0 || li >= k || ds[li] > best + 1e-12 * (1.0 + best) {
+                    if l < 0.0 || l.fract() != 0.0 || li >= k || ds[li] > best + 1e-12 * (DATA_SCALE.with(|s| s.get()).powi(2) + best) {
                         mc::violation(format!("{}.predict:not-nearest", site), format!("{}: query {:?} labelled {} but nearest centroid of {:?} is at d²={}", ctx, qrow, l, cents, best));
                         break;
                     }
@@ -327,6 +341,7 @@ fn queries_for(dim: usize, side: usize) -> Vec<Vec<f64>> {
 fn fit_case(job: &Job) {
     let (n, dim, side, k) = (job.u("n"), job.u("dim"), job.u("side"), job.u("k"));
     let edges = job.b("edges");
+    DATA_SCALE.with(|s| s.set(job.params.get("scale").and_then(|x| x.as_f64()).unwrap_or(1.0)));
     let pts = shifted(job, draw_points(job, n, dim, side));
     if distinct_rows(&pts) < k {
         mc::count("fewer_than_k_distinct_rows");
@@ -404,6 +419,7 @@ fn structured_points(variant: usize, n: usize, dim: usize) -> Vec<Vec<f64>> {
 
 fn structured_case(job: &Job) {
     let (n, dim, k, variant) = (job.u("n"), job.u("dim"), job.u("k"), job.u("variant"));
+    DATA_SCALE.with(|s| s.set(job.params.get("scale").and_then(|x| x.as_f64()).unwrap_or(1.0)));
     let pts = shifted(job, structured_points(variant, n, dim));
     if distinct_rows(&pts) < k {
         return;
@@ -425,6 +441,9 @@ fn structured_case(job: &Job) {
             if let Some((cents, y)) = check_model(site, &pts, k, &model, &ctx, &q) {
                 mc::nontrivial();
                 mc::count("structured_fits");
+                if job.params.get("scale").is_some() {
+                    mc::count("fits_small_scale");
+                }
                 if job.params.get("off").is_some() {
                     mc::count("fits_off_centre");
                 }
@@ -501,6 +520,22 @@ impl Harness for C12 {
                 }
             }
         }
+        // small-scale data (coordinates ~1e-4 and ~1e-6): every clause is scale invariant
+        for &sc in &[0.0001220703125f64, 9.5367431640625e-7] {
+            for (n, k) in [(3usize, 2usize), (4, 2), (4, 3)] {
+                fit_jobs.push(Job::new(format!("fit-1d-n{}-k{}-scale{:e}", n, k, sc), json!({"kind": "fit", "n": n, "dim": 1, "side": 4, "k": k, "edges": false, "scale": sc})));
+            }
+            fit_jobs.push(Job::new(format!("fit-2d-n3-k2-scale{:e}", sc), json!({"kind": "fit", "n": 3, "dim": 2, "side": 3, "k": 2, "edges": false, "scale": sc})));
+            for &n in &[12usize, 40] {
+                for dim in [1usize, 2, 3] {
+                    for k in [2usize, 3] {
+                        for variant in 0..4usize {
+                            jobs.push(Job::new(format!("structured-v{}-n{}-d{}-k{}-scale{:e}", variant, n, dim, k, sc), json!({"kind": "structured", "n": n, "dim": dim, "k": k, "variant": variant, "scale": sc})).with_dev_bound(if t { 2 } else { 1 }));
+                        }
+                    }
+                }
+            }
+        }
         if !t {
             // the edge answers on the smallest instances only
             jobs.push(Job::new("fit-1d-n3-k2-edges", json!({"kind": "fit", "n": 3, "dim": 1, "side": 4, "k": 2, "edges": true})));
@@ -551,11 +586,11 @@ impl Harness for C12 {
             jobs,
             budget_s: if t { 2400 } else { 40 },
             case_deadline_ms: 20_000,
-            floors: vec![("builder_chains", 5), ("entry_cases", 1000), ("assignment_ties", 1000), ("coincident_centroids", 1000), ("far_centroids", 1000), ("duplicate_rows", 1000), ("fits_to_convergence", 1000), ("edge_schedules", 10), ("structured_fits", 100), ("final_empty_cluster", 10), ("assignment_structured", 1000), ("assignment_off_centre", 10_000), ("fits_off_centre", 1000)],
+            floors: vec![("builder_chains", 5), ("entry_cases", 1000), ("assignment_ties", 1000), ("coincident_centroids", 1000), ("far_centroids", 1000), ("duplicate_rows", 1000), ("fits_to_convergence", 1000), ("edge_schedules", 10), ("structured_fits", 100), ("final_empty_cluster", 10), ("assignment_structured", 1000), ("assignment_off_centre", 10_000), ("fits_off_centre", 1000), ("fits_small_scale", 500)],
             bounds: json!({
                 "builders": mc_sc::builders::BOUNDS,
                 "entry_paths": mc_sc::entry::BOUNDS,
-                "off_centre": "assignment lattices (n<=3 1-D, n<=2 2-D; one more in thorough), the structured assignment families, 1-D/2-D all-schedule fits (n<=4) and the structured fits (dim<=3, k<=3) repeated with every coordinate translated by 2^27 and by 1.7e9 (exact in f64): same oracle, decisions are translation invariant", "assignment_step_structured": "5 structured families (incl. grid + off-corner group), n in {36,57} (up to 200 thorough), 1..3 dimensions, every centroid multiset of size 2,3 from 10 data-derived candidates", "assignment_step": "every point sequence n<=4 (5 thorough) on {0..3} and n<=3 (4) on the 3x3 lattice x every centroid multiset of size 2,3 from the half-step grid plus far points",
+                "small_scale": "1-D / 2-D all-schedule fits (n<=4) and the structured fits (n in {12,40}, dim<=3, k<=3) with every coordinate multiplied by 2^-13 and 2^-20 (tolerances scaled with the data)", "off_centre": "assignment lattices (n<=3 1-D, n<=2 2-D; one more in thorough), the structured assignment families, 1-D/2-D all-schedule fits (n<=4) and the structured fits (dim<=3, k<=3) repeated with every coordinate translated by 2^27 and by 1.7e9 (exact in f64): same oracle, decisions are translation invariant", "assignment_step_structured": "5 structured families (incl. grid + off-corner group), n in {36,57} (up to 200 thorough), 1..3 dimensions, every centroid multiset of size 2,3 from 10 data-derived candidates", "assignment_step": "every point sequence n<=4 (5 thorough) on {0..3} and n<=3 (4) on the 3x3 lattice x every centroid multiset of size 2,3 from the half-step grid plus far points",
                 "fit": format!("every such sequence (quick tier, 2-D with k=3: those starting at the lattice origin) with >=k distinct rows x k in {{2,3}} x max_iter in {{1,2,100}} x every first-index draw x every cutoff draw on a {}-point grid (covers every index of positive weight); edge answers u=0 and u=1-2^-53 on all instances in the thorough tier, on two small families in the quick tier", GRID),
                 "structured": "4 families, n up to 40 (300 thorough), 1..6 dimensions, k up to 8, seeding schedules with at most 1 (2) non-default answers",
             }),
